@@ -103,6 +103,7 @@ SITES = {
     "subquery_alias_star": lambda Q, N: (lambda s: Q.from_(s).select(s.star))(Q.from_(T()).select("a").as_(N)),
     "term_alias": lambda Q, N: Q.from_(T()).select(T().a.as_(N)),
     "term_alias_func": lambda Q, N: Q.from_(T()).select(FN.Max(T().a).as_(N), (T().b + 1).as_("k")),
+    # the alias handed to the constructor of a function class instead of as_() (one site per class, see _ctor_alias_sites below)
     "alias_ref_group_order": lambda Q, N: Q.from_(T()).select((T().a + 1).as_(N), FN.Count("*")).groupby((T().a + 1).as_(N)).orderby((T().a + 1).as_(N)),
     # another continuation of the same partial query selected an item under the alias; this one did not: the alias is not
     # a name of this statement and must not be emitted (the grouped / ordered term is printed as an expression)
@@ -151,6 +152,26 @@ SITES = {
     "mysql_upsert_alias": lambda Q, N: Q.into(T()).insert(1).as_(N).on_conflict().do_update("a") if Q.__name__ == "MySQLQuery" else None,
 }
 
+
+def _ctor_alias_sites():
+    import inspect
+    out = {}
+    for name, cls in sorted(vars(FN).items()):
+        if not (inspect.isclass(cls) and cls.__module__ == FN.__name__):
+            continue
+        try:
+            if "alias" not in inspect.signature(cls.__init__).parameters:
+                continue
+            cls(Table("t").a, alias="probe").get_sql(Query.SQL_CONTEXT)
+        except Exception:
+            continue  # other constructor shape (no single-term form)
+        out["func_alias_ctor_" + name] = (lambda c: lambda Q, N: Q.from_(T()).select(c(T().a, alias=N), T().id))(cls)
+    return out
+
+
+SITES.update(_ctor_alias_sites())
+for _k in [k for k in SITES if k.startswith("func_alias_ctor_")]:
+    pass
 
 REQUIRED_IDS = {"schema_nested3_mid": ["top9", "s9", "t"], "schema_nested3_first": ["mid9", "s9", "t"], "schema_nested4": ["top9", "mid9", "s9", "t", "u"],
                 "schema_database": ["s9", "t"], "schema_nested": ["s", "t"]}
